@@ -174,7 +174,7 @@ def gen_curie_remapping(rng, recs):
     fresh = ["new1", "new2", "NEW", "z", "y9", ""]
     keys_pool = canon * 3 + syns * 2 + ["unknown", "nope"]
     m = {}
-    kind = rng.choice(["simple", "simple", "chain", "swap", "onto_syn", "onto_other", "mixed", "partial_chain", "dupval"])
+    kind = rng.choice(["simple", "simple", "chain", "swap", "onto_syn", "onto_other", "mixed", "partial_chain", "dupval", "dupkey", "inconsistent"])
     k = rng.randint(1, 4)
     if kind == "simple":
         for _ in range(k):
@@ -204,6 +204,17 @@ def gen_curie_remapping(rng, recs):
         v = rng.choice(fresh)
         m[a] = v
         m[b] = v
+    elif kind == "dupkey" and any(r[2] for r in recs):
+        r = rng.choice([r for r in recs if r[2]])       # two keys naming the same record
+        a, b = rng.sample([r[0], *r[2]], 2)
+        m[a] = rng.choice(fresh)
+        m[b] = rng.choice(fresh + ["other9"])
+    elif kind == "inconsistent" and any(r[2] for r in recs) and len(recs) >= 2:
+        r = rng.choice([r for r in recs if r[2]])       # one record named as key and (through another name) as value
+        a, b = rng.sample([r[0], *r[2]], 2)
+        o = rng.choice([x for x in recs if x is not r])
+        m[a] = rng.choice(fresh)
+        m[o[0]] = b
     else:
         for _ in range(k):
             m[rng.choice(keys_pool)] = rng.choice(fresh + canon + syns)
@@ -225,7 +236,7 @@ class C11(DerivePlugin):
 
     def generate(self, rng, n):
         for _ in range(n):
-            recs = qprops.gen_records(rng, rng.choice([1, 2, 2, 3, 3, 4, 5]), cps=[p for p in qprops.CP_POOL if p])
+            recs = qprops.gen_records(rng, rng.choice([1, 2, 2, 3, 3, 4, 5]))     # the pool includes the empty prefix
             m = gen_curie_remapping(rng, recs)
             strs, pairs = self.probes(rng, [recs], [b for _, b in m] + [a for a, _ in m])
             yield [[recs], [2, m], strs, pairs, []]
@@ -304,6 +315,22 @@ def snapshot(c, strs, pairs):
     ]
 
 
+def derived_identity(c, prov):
+    """A converter with the records of c that is the result of an earlier derivation (the earlier result is kept by the caller)."""
+    import curies
+    from curies.reconciliation import remap_curie_prefixes, remap_uri_prefixes, rewire
+
+    if prov == 1:
+        return remap_curie_prefixes(c, {})
+    if prov == 2:
+        return remap_uri_prefixes(c, {})
+    if prov == 3:
+        return rewire(c, {})
+    if prov == 4:
+        return curies.chain([c])
+    return c.get_subconverter([r.prefix for r in c.records])
+
+
 class C10(DerivePlugin):
     pid = "C10"
     entry = 10
@@ -325,7 +352,7 @@ class C10(DerivePlugin):
                 inputs = overlapping_converters(rng, rng.choice([1, 2, 2, 3]))
                 op = [0, int(rng.random() < 0.6)]
             else:
-                recs = qprops.gen_records(rng, rng.choice([1, 2, 3, 4]), cps=[p for p in qprops.CP_POOL if p])
+                recs = qprops.gen_records(rng, rng.choice([1, 2, 3, 4]))
                 inputs = [recs]
                 if kind == "sub":
                     allp = [p for r in recs for p in [r[0], *r[2]]]
@@ -351,16 +378,27 @@ class C10(DerivePlugin):
                     o[2] = 1  # merge=True
                 follow.append(o)
             strs, pairs = self.probes(rng, inputs)
-            yield [[inputs, op, strs, pairs, []], 1 + len(follow), is_disc, [follow, extra_disc]]
+            # provenance of the inputs: 0 fresh from the constructor; 1..5 the input is itself the RESULT of an earlier derivation that
+            # changes nothing (empty remapping / rewiring, chain of one, sub-converter of everything) -- pipelines of derivations
+            prov = rng.choice([0, 0, 0, 1, 2, 3, 4, 5])
+            yield [[inputs, op, strs, pairs, []], 1 + len(follow), is_disc, [follow, [extra_disc, prov]]]
 
     def observe(self, case):
         import curies
         from curies.discovery import discover
 
-        (inputs, op, strs, pairs, _), nsteps, is_disc, (follow, uris) = case
-        ft = fold_table([s for recs in inputs for s in case_strings(recs)])
-        case = [[inputs, op, strs, pairs, ft], nsteps, is_disc, [follow, uris]]
+        (inputs, op, strs, pairs, _), nsteps, is_disc, (follow, tail) = case
+        uris, prov = tail if (len(tail) == 2 and isinstance(tail[1], int)) else (tail, 0)
         convs = [curies.Converter(qprops.mk_records(recs)) for recs in inputs]
+        if prov:
+            try:
+                convs = [derived_identity(c, prov) for c in convs]
+                inputs = [[qprops.v_record(r) for r in c.records] for c in convs]
+            except Exception:
+                convs = [curies.Converter(qprops.mk_records(recs)) for recs in inputs]
+                prov = 0
+        ft = fold_table([s for recs in inputs for s in case_strings(recs)])
+        case = [[inputs, op, strs, pairs, ft], nsteps, is_disc, [follow, [uris, prov]]]
         before = [snapshot(c, strs, pairs) for c in convs]
         ids = {id(r) for c in convs for r in c.records}
 
@@ -397,6 +435,10 @@ class C10(DerivePlugin):
         k = "discover" if case[2] else OPS[case[0][1][0]]
         h[k] = h.get(k, 0) + 1
         acc["follow_up_steps"] = acc.get("follow_up_steps", 0) + len(case[3][0])
+        pv = acc.setdefault("input_provenance_hist (0 constructor, 1 remap_curie_prefixes result, 2 remap_uri_prefixes result, 3 rewire result, 4 chain result, 5 get_subconverter result)", {})
+        t = case[3][1]
+        pk = str(t[1]) if (len(t) == 2 and isinstance(t[1], int)) else "0"
+        pv[pk] = pv.get(pk, 0) + 1
 
     def sample(self, case, obs):
         return {"inputs": plain(case[0][0]), "op": "discover" if case[2] else OPS[case[0][1][0]], "arg": plain(case[0][1][1]),
